@@ -89,14 +89,17 @@ chk("C15", "exploration",
     "normpath is checked on every string over {/,.,a,b} up to length 9 (11 thorough) and {/,.,a} up to 11 (14) against "
     "an independent cleanname, idempotence, shape invariants and the kernel; proptest for long/unicode strings; relpath "
     "re-join and spelling-agreement in a tree with symlinked directories; end-to-end: 2-4 spellings of one target on one "
-    "command line at -j1..4 must give one build and one canonical database row. Coverage-guided: libFuzzer target "
-    "`normpath` (400k / 8M executions).", P_NOTE,
-    "exhaustive enumeration + proptest + libFuzzer vs reference/kernel oracle + Hypothesis end-to-end cases", "DESIGN.md §4 C15", "P+H")
+    "command line at -j1..4 must give one build and one canonical database row; contention tier (engine S): the same "
+    "while another invocation holds the target's lock (its script at a gate) -- each file's script is started at most "
+    "once by the measured command. Coverage-guided: libFuzzer target `normpath` (400k / 8M executions).", P_NOTE,
+    "exhaustive enumeration + proptest + libFuzzer vs reference/kernel oracle + Hypothesis end-to-end cases and scheduled contention scenarios", "DESIGN.md §4 C15, §10.5", "P+H+S")
 chk("C18", "exploration",
     "In-process round trip through the real formatter and parser for generated (kind, pid, text); end-to-end: generated "
     "graphs whose scripts write numbered stderr lines (partial, long, odd payloads) built at -j1..4, live output and "
     "redo-log replay parsed and compared per target; lines cut into up to five separately written pieces, targets in "
-    "two directories, whole lines in record form (known D15). Coverage-guided: libFuzzer target `meta` (parse -> "
+    "two directories, whole lines in record form (known D15); live output also in the default pretty format; a second "
+    "command rebuilds a subset with other lines (log replaced at each build start), replayed with -r and with -r -u "
+    "(unchanged targets shown once with the lines of their last build; found D30). Coverage-guided: libFuzzer target `meta` (parse -> "
     "format -> parse fixed point, 400k / 8M executions) (found D27; known D15, D16).", P_NOTE,
     "property-based testing: proptest round trip + libFuzzer + Hypothesis end-to-end per-target sequence invariant", "DESIGN.md §4 C18", "P+S-lite")
 
@@ -107,11 +110,12 @@ S_NOTE = ("Trusted: rv/sched.py (event FIFO, gates, /proc-based quiescence, SIGS
           "replay (oracles are invariants over all schedules, so this costs reproducibility, not soundness). A hang "
           "verdict needs a zero-CPU proof; anything else over budget exits 2.")
 chk("C04", "fault_enumeration",
-    "Every combination of 14 script behaviours x 6 payload sizes x 2 prior states x 2 commands is executed (2 rounds "
-    "quick, 12 thorough, different payload bytes / log / exit code / directory) plus sampled extras; expectation table "
+    "Every combination of 14 script behaviours x 6 payload sizes x 3 prior states (absent, previously generated, made by "
+    "hand) x 2 commands is executed (4 rounds quick, 16 thorough, different payload bytes / log / exit code / directory "
+    "/ kill position) plus sampled extras; expectation table "
     "from the statement, stat+bytes of the previous target, stray-file scan, a reader thread and inotify for atomicity.",
     "Trusted: inotify, the sampling reader (millions of reads per run), dash. Kill points inside the script are "
-    "'after half the payload'; kills of redo itself are C10's subject.",
+    "before any output / after half the payload / after all of it; kills of redo itself are C10's subject.",
     "exhaustive fault enumeration (cross product) + Hypothesis sampling, table/stat/inotify oracles", "DESIGN.md §4 C04", "K-lite")
 chk("C06", "exploration",
     "2-4 overlapping top-level invocations over gated scripts, start times and completion order decided by the "
